@@ -44,7 +44,7 @@ def one(rng, k):
             raise RuntimeError('independent reader disagrees with MEX_HLOG_FIELD_COUNT')
         label = fname
     else:
-        fields = [dict(size=rng.choice([1, 2]), name=rng.choice(['hl_', 'f', 'cnt_', 'temp\u00e9rature_', '\u00b5', '\u4e2d']) +
+        fields = [dict(size=rng.choice([1, 2]), name=rng.choice(['hl_', 'f', 'cnt_', 'temp\u00e9rature_', '\u00b5', '\u4e2d', 'hl_\x0cff_', 'gs\x1d_', 'ps\u2029_']) +
                        '%d_%s' % (j, rng.choice(['crc', 'x', 'failures', '\u00b5\u00b5'])))
                   for j in range(rng.randint(0, 12))]
         # a table may declare the same entry again (reserved / filler fields): same name, same or another width
@@ -92,7 +92,7 @@ def one(rng, k):
             # (nothing to decode: the plug-in shows an empty list, the decoder itself is asked instead)
             lines, route = parse_hlog_data(memoryview(bytes(data)), path), 'direct'
     else:
-        lines = parse_hlog_data(memoryview(bytes(data)), path)
+        lines = parse_hlog_data(drawer.view(data, k), path)
     rec = dict(family='C16', shape_ok=True, label=label, fields=[dict(name=drawer.cp(f['name']), size=f['size']) for f in fields],
                data=data, dump=[], listed=[], dump_first=False, route=route)
     try:
